@@ -167,6 +167,14 @@ def handleSeq (inp impl : Json) : R OpResult := do
   let orig ← optRulesOf inp "rules"
   let steps ← jlistM stepOf (← jget inp "steps")
   let fin ← fNat inp "fin"
+  -- `NewGatewayTrafficRouting` refuses a canary Service name equal to the stable one (`Conf.refused`): no provider,
+  -- no call.  Regression oracle of the fixed finding sameServiceGateway: a constructor that accepts such a
+  -- configuration again is a VIOLATION with this input.
+  if c.refused then
+    let iRefused := (jopt impl "refused").isSome
+    return { model := mkObj [("refused", boolJ true)],
+             holds := [("C13.same_service_refused", iRefused), ("C03.gateway_same_service_refused", iRefused)],
+             tags := ["op:seq", "conf:stable=canary", "provider:refused"] }
   -- model
   let mut store := orig
   let mut mSteps : List Json := []
@@ -186,7 +194,8 @@ def handleSeq (inp impl : Json) : R OpResult := do
   -- oracles on the implementation's trace
   let iSteps ← jlistM (jlistM callOf) (← jget impl "steps")
   let iFin ← jlistM callOf (← jget impl "fin")
-  let mut tags := ["op:seq", sizeTag "steps" steps.length]
+  let mut tags := ["op:seq", sizeTag "steps" steps.length] ++
+    (match jopt inp "conflictHit" with | some (.bool true) => ["fault:conflict-on-write"] | _ => [])
   let mut holds : List (String × Bool) := []
   let kinds := steps.map fun (s, _) => kindOf s.weight s.ms
   for (a, b) in kinds.zip (kinds.drop 1) do
